@@ -104,27 +104,34 @@ inductive CfgSrc where
   | const (v : PyVal)    -- an attribute that is not a constructor argument of this class
   deriving DecidableEq, Repr
 
-/-- the keys `get_config` emits, in dict order -/
+/-- the keys `get_config` emits, in dict order.  (After the fix round every class emits only
+    constructor arguments of its own: `quantized_hswish` has a `get_config` of its own instead of
+    the inherited `quantized_bits` one, so `CfgSrc.const` is no longer used by any class.) -/
 def cfgSpec : Cls → List (String × CfgSrc)
   | .quantized_linear =>
     [("bits", .attr), ("integer", .attr), ("symmetric", .attr), ("alpha", .attr),
-     ("keep_negative", .attr), ("use_stochastic_rounding", .attr), ("qnoise_factor", .attr)]
+     ("keep_negative", .attr), ("use_stochastic_rounding", .attr), ("scale_axis", .attr),
+     ("qnoise_factor", .attr)]
   | .quantized_bits =>
     [("bits", .attr), ("integer", .attr), ("symmetric", .attr), ("alpha", .attr),
-     ("keep_negative", .attr), ("use_stochastic_rounding", .attr), ("qnoise_factor", .attr),
-     ("post_training_scale", .attr)]
-  | .bernoulli => [("alpha", .attr)]
+     ("keep_negative", .attr), ("use_stochastic_rounding", .attr), ("scale_axis", .attr),
+     ("qnoise_factor", .attr), ("use_ste", .attr), ("elements_per_scale", .attr),
+     ("min_po2_exponent", .attr), ("max_po2_exponent", .attr), ("post_training_scale", .attr)]
+  | .bernoulli => [("alpha", .attr), ("temperature", .attr), ("use_real_sigmoid", .attr)]
   | .ternary =>
     [("alpha", .attr), ("threshold", .attr), ("use_stochastic_rounding", .attr),
      ("number_of_unrolls", .attr)]
   | .stochastic_ternary =>
     [("alpha", .attr), ("threshold", .attr), ("temperature", .attr), ("use_real_sigmoid", .attr),
      ("number_of_unrolls", .attr)]
-  | .binary => [("use_01", .attr), ("alpha", .attr), ("use_stochastic_rounding", .attr)]
+  | .binary =>
+    [("use_01", .attr), ("alpha", .attr), ("use_stochastic_rounding", .attr), ("scale_axis", .attr),
+     ("elements_per_scale", .attr), ("min_po2_exponent", .attr), ("max_po2_exponent", .attr)]
   | .stochastic_binary => [("alpha", .attr), ("temperature", .attr), ("use_real_sigmoid", .attr)]
   | .quantized_relu =>
     [("bits", .attr), ("integer", .attr), ("use_sigmoid", .attr), ("negative_slope", .attr),
-     ("use_stochastic_rounding", .attr), ("relu_upper_bound", .attr), ("qnoise_factor", .attr)]
+     ("use_stochastic_rounding", .attr), ("relu_upper_bound", .attr), ("is_quantized_clip", .attr),
+     ("qnoise_factor", .attr), ("use_ste", .attr)]
   | .quantized_ulaw => [("bits", .attr), ("integer", .attr), ("symmetric", .attr), ("u", .attr)]
   | .quantized_tanh =>
     [("bits", .attr), ("symmetric", .attr), ("use_stochastic_rounding", .attr),
@@ -134,17 +141,17 @@ def cfgSpec : Cls → List (String × CfgSrc)
      ("use_stochastic_rounding", .attr)]
   | .quantized_po2 =>
     [("bits", .attr), ("max_value", .attr), ("use_stochastic_rounding", .attr),
-     ("quadratic_approximation", .attr), ("qnoise_factor", .attr), ("log2_rounding", .attr)]
+     ("quadratic_approximation", .attr), ("qnoise_factor", .attr), ("log2_rounding", .attr),
+     ("use_ste", .attr)]
   | .quantized_relu_po2 =>
     [("bits", .attr), ("max_value", .attr), ("negative_slope", .attr),
      ("use_stochastic_rounding", .attr), ("quadratic_approximation", .attr),
-     ("qnoise_factor", .attr), ("log2_rounding", .attr)]
+     ("qnoise_factor", .attr), ("log2_rounding", .attr), ("use_ste", .attr)]
   | .quantized_hswish =>
-    -- quantized_bits.get_config() (keep_negative is the base-class attribute, always True;
-    -- post_training_scale always None) followed by the two hswish keys
+    -- quantized_hswish.get_config: the constructor arguments of the class itself
     [("bits", .attr), ("integer", .attr), ("symmetric", .attr), ("alpha", .attr),
-     ("keep_negative", .const (.bool true)), ("use_stochastic_rounding", .attr), ("qnoise_factor", .attr),
-     ("post_training_scale", .const .none), ("relu_shift", .attr), ("relu_upper_bound", .attr)]
+     ("use_stochastic_rounding", .attr), ("scale_axis", .attr), ("qnoise_factor", .attr),
+     ("relu_shift", .attr), ("relu_upper_bound", .attr)]
 
 def serialised (c : Cls) : List String := (cfgSpec c).map Prod.fst
 
@@ -276,7 +283,8 @@ def forget (c : Cls) (e : Env) : Env :=
           | some (.const v) => v
           | Option.none => p.2)
 
-/-- every emitted key is a constructor parameter (otherwise `cls(**config)` is a TypeError) -/
+/-- every emitted key is a constructor parameter (otherwise `cls(**config)` is a TypeError);
+    true of every class since `quantized_hswish` has its own `get_config` -/
 def cfgClosed (c : Cls) : Bool := (serialised c).all fun k => (paramNames c).contains k
 
 end QKV.Py
